@@ -2692,9 +2692,23 @@ ppl_io_wrap_string(const char* src,
                    unsigned preferred_first_line_length,
                    unsigned preferred_line_length) {
   using namespace IO_Operators;
-  return strdup(wrap_string(src, indent_depth,
-                            preferred_first_line_length,
-                            preferred_line_length).c_str());
+  try {
+    return strdup(wrap_string(src, indent_depth,
+                              preferred_first_line_length,
+                              preferred_line_length).c_str());
+  }
+  catch (const std::bad_alloc& e) {
+    // No exception is allowed to cross the language boundary.
+    notify_error(PPL_ERROR_OUT_OF_MEMORY, e.what());
+  }
+  catch (const std::exception& e) {
+    notify_error(PPL_ERROR_UNKNOWN_STANDARD_EXCEPTION, e.what());
+  }
+  catch (...) {
+    notify_error(PPL_ERROR_UNEXPECTED_ERROR,
+                 "completely unexpected error: a bug in the PPL");
+  }
+  return 0;
 }
 
 int
